@@ -5,7 +5,11 @@ ROOT=$(cd "$(dirname "$0")/.." && pwd)
 python3 "$ROOT/harness/gen_coqproject.py" >/dev/null
 cd "$ROOT/coq"
 coq_makefile -f _CoqProject -o Makefile >/dev/null
-timeout 5400 make -j16 2>&1 | grep -v 'Cannot open' | tail -5
+if ! timeout 5400 make -j16 > "$ROOT/coq/make.log" 2>&1; then
+  grep -v 'Cannot open' "$ROOT/coq/make.log" | tail -30
+  echo "setup: coq build failed"
+  exit 1
+fi
 # source refinement of reg_access.py (translator + PyLite proofs); never fatal: see harness/srcref.py
 python3 "$ROOT/harness/srcref.py" | grep -E '"status"' || true
 cd "$ROOT/ocaml" && ./build.sh
